@@ -97,7 +97,8 @@ func (c *boundaryCollector) Gap(b gen.Boundary) gen.GapText {
 
 type c09Transform struct {
 	kind string
-	seq  int // boundary (Seq) or token index for "semi"
+	seq  int  // boundary (Seq) or token index for "semi"
+	bq   bool // the boundary lies inside a backquote substitution
 }
 
 // applicable lists every single transformation of the program.
@@ -107,30 +108,30 @@ func c09Applicable(p *gen.Program) ([]c09Transform, []gen.Boundary) {
 	var ts []c09Transform
 	for _, b := range col.bs {
 		if b.ContOnly {
-			ts = append(ts, c09Transform{"continuation", b.Seq})
+			ts = append(ts, c09Transform{kind: "continuation", seq: b.Seq})
 			continue
 		}
 		if b.Glue {
 			continue
 		}
-		ts = append(ts, c09Transform{"blanks", b.Seq}, c09Transform{"tab", b.Seq})
+		ts = append(ts, c09Transform{kind: "blanks", seq: b.Seq}, c09Transform{kind: "tab", seq: b.Seq})
 		if !(excluded["cont_before_linebreak_newline"] && b.Next != nil && b.Next.Kind == gen.KNewline && b.Prev != nil && b.Prev.LinebreakAfter) {
-			ts = append(ts, c09Transform{"continuation", b.Seq}, c09Transform{"blank+continuation", b.Seq}, c09Transform{"continuation+blank", b.Seq})
+			ts = append(ts, c09Transform{kind: "continuation", seq: b.Seq}, c09Transform{kind: "blank+continuation", seq: b.Seq}, c09Transform{kind: "continuation+blank", seq: b.Seq})
 		}
 		if b.BeforeNewline && (b.Stream.Open != "`" || b.AtEnd) {
-			ts = append(ts, c09Transform{"comment", b.Seq})
+			ts = append(ts, c09Transform{kind: "comment", seq: b.Seq, bq: b.Stream.Open == "`"})
 		}
 		if b.Linebreak {
-			ts = append(ts, c09Transform{"blankline", b.Seq})
+			ts = append(ts, c09Transform{kind: "blankline", seq: b.Seq})
 			if b.Stream.Open != "`" {
-				ts = append(ts, c09Transform{"commentline", b.Seq})
+				ts = append(ts, c09Transform{kind: "commentline", seq: b.Seq})
 			}
 		}
 	}
 	i := 0
 	p.Stream.Walk(func(st *gen.Stream, _ int, t *gen.Tok) {
 		if t.SemiNL {
-			ts = append(ts, c09Transform{"semi", i})
+			ts = append(ts, c09Transform{kind: "semi", seq: i})
 		}
 		i++
 	})
@@ -161,10 +162,17 @@ func c09Apply(p *gen.Program, ts []c09Transform) (string, []string, string) {
 			if k%4 == 3 {
 				lay[t.seq] = gen.GapText{Comment: gen.EmptyComment}
 			}
+			if k%4 == 1 && !t.bq {
+				// a comment ends at the newline, whatever stands in front of it
+				lay[t.seq] = gen.GapText{Comment: fmt.Sprintf(" c%d ends in \\", k)}
+			}
 		case "blankline":
 			lay[t.seq] = gen.GapText{Newlines: 2}
 		case "commentline":
 			lay[t.seq] = gen.GapText{Newlines: 2, NLComments: []string{fmt.Sprintf(" trailing %d", k), fmt.Sprintf(" own line %d `x` $y", k)}}
+			if k%3 == 1 {
+				lay[t.seq] = gen.GapText{Newlines: 2, NLComments: []string{fmt.Sprintf(" trailing %d \\", k), "\\"}}
+			}
 		case "semi":
 			semis[t.seq] = true
 		}
